@@ -70,8 +70,11 @@ func init() {
 															rq = SymReq{Browser: "b1", Method: "GET", Route: route, Query: queries[rng.Intn(len(queries))]}
 															rawLiteral(&rq)
 														} else {
-															arg := "00" + fail + "0000"
+															arg := "00" + fail + "00000"
 															b := []byte(arg)
+															if fail != "u" { // the v1 constructors cannot express 401
+																b[7] = "012"[(k+row)%3]
+															}
 															if reqFull {
 																b[0] = '1'
 															}
